@@ -298,6 +298,10 @@ def rule_validated(ctx):
     validated_table(ctx, "O3.2")
 
 
+EMPTY_VALUES = {"ChoiceFieldFormat": "", "ConstantFieldFormat": "", "PatternFieldFormat": "", "RegExFieldFormat": "", "TextFieldFormat": "",
+                "DateTimeFieldFormat": None, "DecimalFieldFormat": None, "IntegerFieldFormat": None}
+
+
 def rule_guard_state(ctx):
     """
     O3.3/O3.4: whatever the field type, after its constructor ran the guard state is the declaration's: the length
@@ -337,7 +341,7 @@ def rule_guard_state(ctx):
 
         sequence = [(_token.NAME, "ab", (1, 0), (1, 2), "ab"), (_token.ENDMARKER, "", (1, 2), (1, 2), "")]
         stubs = {"cutplace.ranges.Range": range_stub, "cutplace.ranges.DecimalRange": decimal_range_stub,
-                 "cutplace.ranges.create_range_from_length": stub(lambda i, a, k: Obj(model.cls("cutplace.ranges.Range"), {}, label="from length")),
+                 "cutplace.ranges.create_range_from_length": stub(lambda i, a, k: Obj(model.cls("cutplace.ranges.Range"), {"_description": "from length", "_items": [(1, 99)], "_lower_limit": 1, "_upper_limit": 99}, label="from length")),
                  "cutplace._tools.tokenize_without_space": stub(lambda i, a, k: AbsIter(lambda index: sequence[index] if index < len(sequence) else AbsIter.STOP, "tokens")),
                  "cutplace._tools.length_of_int": stub(lambda i, a, k: 2)}
         externals = {"fnmatch.translate": lambda i, a, k: "x", "re.compile": lambda i, a, k: Obj("re.Pattern", {})}
@@ -361,6 +365,11 @@ def rule_guard_state(ctx):
             problems.append("empty flag is %r instead of the declared %r" % (field.attrs.get("_is_allowed_to_be_empty"), flag))
         if field.attrs.get("_data_format") is not data_format:
             problems.append("data format replaced")
+        # the type's empty value: types that hand back the cell's text yield the empty text, types that convert the
+        # cell (to int, Decimal, time tuple) yield None
+        if cls.name in EMPTY_VALUES and field.attrs.get("_empty_value", "<unset>") != EMPTY_VALUES[cls.name] \
+                or (cls.name in EMPTY_VALUES and type(field.attrs.get("_empty_value")) is not type(EMPTY_VALUES[cls.name])):
+            problems.append("empty value is %r instead of the type's %r" % (field.attrs.get("_empty_value", "<unset>"), EMPTY_VALUES[cls.name]))
         return (key, "; ".join(problems) if problems else "conforms", "conforms")
 
     decide(ctx, "O3.4", "guard state after each field type's constructor", BASE + ".__init__", cell, min_cells=30)
@@ -410,6 +419,13 @@ def rule_ods_cell_texts(ctx):
     rule_cell_texts(ctx, "O3.6")
 
 
+def rule_excel_cell_texts(ctx):
+    """O3.8: an Excel cell reaches the guards as empty only if it is empty - a stored 0 or FALSE is the text "0" (C16's table)."""
+    from .c16 import rule_cell_values
+
+    rule_cell_values(ctx, "O3.8")
+
+
 from .common import rule_module_state  # noqa: E402
 
 def rule_every_cell_reaches_its_field(ctx):
@@ -421,4 +437,4 @@ def rule_every_cell_reaches_its_field(ctx):
     protocol.validate_row_table(ctx, "O3.7", aspects=())
 
 
-RULES = [rule_template_integrity, rule_validated, rule_guard_state, rule_characters, rule_ods_cell_texts, rule_every_cell_reaches_its_field, rule_module_state]
+RULES = [rule_template_integrity, rule_validated, rule_guard_state, rule_characters, rule_ods_cell_texts, rule_excel_cell_texts, rule_every_cell_reaches_its_field, rule_module_state]
